@@ -499,7 +499,9 @@ def monitor_script(case, obs):
             spec = ("ctor", "ok")
         else:
             for (k, o) in items:
-                st = final(o)
+                # the operand's outcome WHEN IT WAS PROCESSED (the outcome of a Process event can be overwritten later when
+                # program text called succeed()/fail() on the live process: that is outside C05)
+                st = tl.at(o, cpt) if k == "ctor" else tl.at(o, step_end.get(k, tl.npoints))
                 if st is None or st[2] is None:
                     break
                 if st[2] is False:
